@@ -1,6 +1,6 @@
 SPECIFICATION TSpec
 CONSTANTS
-  Keys = {1,2,3,4,5,6,7,8,9,10,11,12,13,14,15,16}
+  Keys = {1,2,3,4,5,6,7,8,9,10,11,12,13,14,15,16,17,18}
   Vals = {1,2,3,4,5,6,7,8,9,10,11,12,13,14,15,16}
   MaxLen = 100
 INVARIANTS Report
